@@ -38,6 +38,10 @@ CHECKS = {
          "Exploration: ~8k (quick) / 60k (thorough) documents of both grammars (valid and single-token-mutated, comments everywhere) are parsed under every limit from 0 to T+2 through ParseQueryWithTokenLimit, ParseSchemaWithLimit and ParseSchemasWithLimit (per-source limits); success must be exact (L=0 or L>=T reproduces the unlimited tree by reflect.DeepEqual; 0<L<T fails) and monotone, and every limit failure must have read at most L+2 tokens and scanned no byte beyond reference token L+2. 1-8 MiB floods (nesting, tokens, comments) under limits 1..15000 run with a 32 MiB stack ceiling so unbounded recursion is a fatal exit.",
          "T comes from the reference lexer (C03); when the unlimited parse fails only failure (not the error text) is required of limits >= T, because the property asks no more. Work is measured in hook counters, not time.",
          "DESIGN.md §4 C16"),
+ "C17": ("metamorphic monitor: canonical loaded-schema model under permutation of definitions and partition into 1-5 sources vs the single-file base arrangement; error-file oracle from the reference checker's involved definitions",
+         "Exploration: 1k (quick) / 30k (thorough) generated schemas (half with one injected fault from the 36+3 entry catalogue) x 12 / 40 arrangements (as generated, extensions first, interfaces after implementers, reversed, roots last, random; 1-5 sources in random order); verdict and canonical schema (fields, values, members, interfaces, directive applications as sets; relations; roots) must equal the base arrangement, and a load error must name a file holding a definition involved in a violation the reference checker sees.",
+         "Trusts the canonical dump and the reference checker's involved-definition sets; schemas violating rules outside C07's enumeration are judged for order independence only.",
+         "DESIGN.md §4 C17"),
  "C19": ("runtime round-trip monitor: model(parse(x)) vs model(json.Unmarshal(json.Marshal(parse(x)))) over generated documents",
          "Exploration: every generated document is parsed by the real parser, encoded and decoded by the real (un)marshalers and compared with an independent AST→model adapter; 20k (quick) / 500k (thorough) documents with all three selection kinds at every depth and order. Held on what was observed, not a proof.",
          "Trusts encoding/json and the harness's model adapter; positions, comments and validation annotations are outside the property and not compared.",
